@@ -224,6 +224,22 @@ CLAIMED["C13"] = dict(
          "point order) - the correspondence compares with code point order only.",
     ref="6 C13")
 
+CLAIMED["C15"] = dict(
+    technique="Lean model of every scratch-using function as its sequence of arena operations, run on the C01 arena model + T-corr of the exact heap traffic (sizes requested, nodes freed) and the scratch position, each call in a fresh thread",
+    text="Theorems: after a zero-size allocation taken as rewind point, ANY sequence of allocations and of reallocations of "
+         "blocks allocated behind it leaves the nodes below untouched (above_alloc, above_realloc) and rewinding to the point "
+         "restores capacity and position of every node (rewind_restores) - for every prior arena state; hence simple and full case "
+         "mapping, comparison with fold/collate and sorting leave the scratch arena exactly as they found it for every input, any "
+         "number of expanding code points and any order in which their temporaries are moved (caseSimple_restores, "
+         "caseFull_restores, compare_restores, sort_restores), and any number of repetitions do (repeat_restores: bounded memory). "
+         "Linear memory: a work array never holds more than twice the elements needed, or its initial capacity, whatever the "
+         "sequence of appended chunks (appends_cap_linear; np2_le_double).",
+    note="The heap side (sizes of the nodes the scratch arena requests) depends on the arena's prior state; it is predicted exactly "
+         "by the model for a fresh arena and compared with the implementation on every case, and bounded by the oracle "
+         "(64 * (|in| + |out|) + 4096 bytes per call), not stated as a theorem. Trusted: harness c12.c (tracking gp_heap, separate "
+         "allocator for the strings), driver.",
+    ref="6 C15")
+
 PENDING = {}
 
 def main():
